@@ -76,9 +76,16 @@ RescaleOK(e) ==
           /\ BLe(SDist(e.dq[i], e.twin[i]), BAdd(URel(SAbs(e.twin[i]), 6, p), BMul(eta, BOfInt(MaxCodeOf(e.after.qt) + 8))))
 \* re-quantizing operations: within one step of the output grid at the reference value
 \*   int8: one step = scale ; float8: max(|ref| * 2^-mbits, smallest subnormal * scale)
+\* "within one step of the output scale" presupposes an output grid made for the operation's codomain: softmax returns values in
+\* [0, 1], so a grid whose largest code stands for much more than 1 is not a re-quantization of that result (a mutant choosing
+\* the scale `max` instead of `1 / max` returned all zeros and was within one - enormous - step)
+GridFitsUnitRange(e) ==
+  (e.op = "softmax" /\ IsQK(e.after.kind) /\ e.E <= 0) =>
+     BLe(BMul(SAbs(e.scale[1]), BOfInt(MaxCodeOf(e.after.qt))), BAdd(BShl(<<1>>, -e.E), BShl(<<1>>, IF -e.E >= 5 THEN -e.E - 5 ELSE 0)))
 RequantOK(e) ==
   LET a == e.after IN
   IF ~IsQK(a.kind) THEN ExactEq(e)
+  ELSE IF ~GridFitsUnitRange(e) THEN FALSE
   ELSE LET s == SAbs(e.scale[1])
            mb == IF a.qt = "qfloat8_e5m2" THEN 2 ELSE 3
            p == PBits(e.fmt_out)
